@@ -77,7 +77,7 @@ class Shadow:
                 ent['flags'] = frozenset(mf.group(1).split())
 
 
-def scenario(g, sim, conn_mod, m, pre, during, noop_first, end_done, want_delivery, pick):
+def scenario(g, sim, conn_mod, m, pre, during, noop_first, end_done, want_delivery, pick, settle=True):
     """pre: list of ops B runs after A's last command and before IDLE; during: list of bursts (lists of ops);
     pick(n): the sequence number B addresses.  returns error|None"""
     import asyncio
@@ -97,11 +97,13 @@ def scenario(g, sim, conn_mod, m, pre, during, noop_first, end_done, want_delive
         return None
 
     async def during_cb(tr):
-        for burst in during:
+        for bi, burst in enumerate(during):
             for op in burst:
                 _b_do(g, w, op, pick)
-            for _ in range(12):
-                await asyncio.sleep(0)
+            if settle or bi < len(during) - 1:
+                for _ in range(12):
+                    await asyncio.sleep(0)
+            # else: the last burst and the client's DONE arrive in the same scheduling window
         marks['out_before_done'] = len(tr.output())
         marks['state_before_done'] = [(u, frozenset(f)) for u, f, _ in w.dump('INBOX')]
         return b'DONE\r\n' if end_done else b'x\r\n'
@@ -138,7 +140,7 @@ def scenario(g, sim, conn_mod, m, pre, during, noop_first, end_done, want_delive
     for i, (ent, uid) in enumerate(zip(sh.entries, view)):
         if ent['uid'] is not None and ent['uid'] != uid:
             return 'after IDLE sequence %d is UID %s for the client and %s for the server' % (i + 1, ent['uid'], uid)
-    if want_delivery and during and any(during):
+    if want_delivery and settle and during and any(during):
         # C16: whatever happened while idling reached the client without DONE being needed
         st = marks['state_before_done']
         got = before_done if before_done is not None else [(e['uid'], e['flags']) for e in sh.entries]
@@ -167,6 +169,7 @@ def harness(g_ref, m, npre, bursts, want_delivery=False):
         during = [[draw('d%d_%d' % (b, i)) for i in range(n)] for b, n in enumerate(bursts)]
         noop_first = bool(eng.flip('noop_first'))
         end_done = bool(eng.flip('done'))
+        settle = bool(eng.flip('settle'))
         seqs = []
 
         def pick(n):
@@ -174,8 +177,8 @@ def harness(g_ref, m, npre, bursts, want_delivery=False):
             seqs.append(v)
             return v
         wit = lambda mdl: {'m': m, 'pre': pre, 'during': during, 'noop_first': noop_first, 'end_done': end_done,  # noqa: E731
-                           'want_delivery': want_delivery, 'seqs': [v.eval(mdl) for v in seqs]}
-        err = scenario(g, g['_sim'], _conn, m, pre, during, noop_first, end_done, want_delivery, pick)
+                           'want_delivery': want_delivery, 'settle': settle, 'seqs': [v.eval(mdl) for v in seqs]}
+        err = scenario(g, g['_sim'], _conn, m, pre, during, noop_first, end_done, want_delivery, pick, settle)
         return Outcome(err is None, witness=wit, info=err)
     return fn
 
@@ -190,5 +193,6 @@ def replay(w):
     g.update(locals())
     seqs = list(w['seqs'])
     err = scenario(g, _sim, _conn, w['m'], list(w['pre']), [list(b) for b in w['during']],
-                   w['noop_first'], w['end_done'], w.get('want_delivery', False), lambda n: seqs.pop(0) if seqs else 1)
+                   w['noop_first'], w['end_done'], w.get('want_delivery', False), lambda n: seqs.pop(0) if seqs else 1,
+                   w.get('settle', True))
     return [err] if err else []
